@@ -1402,8 +1402,54 @@ def _set_method(I, s, rid, name, args, kwargs):
     raise OutsideSubset("set." + name)
 
 
+_LITERAL_STR_METHODS = {"split", "rsplit", "strip", "lstrip", "rstrip", "lower", "upper", "title", "capitalize", "replace", "startswith",
+                        "endswith", "partition", "rpartition", "splitlines", "isdigit", "isidentifier", "casefold", "removeprefix", "removesuffix", "join"}
+
+
+def _literal_of(I, v):
+    """Python value of a literal str / int / bool / None term, else a marker"""
+    v = z3.simplify(I.lift(v)) if is_v(I.lift(v)) else None
+    if v is None or not z3.is_app(v):
+        return _literal_of
+    nm = v.decl().name()
+    if nm == "str" and z3.is_string_value(v.arg(0)):
+        return v.arg(0).as_string()
+    if nm == "int" and z3.is_int_value(v.arg(0)):
+        return v.arg(0).as_long()
+    if nm == "none":
+        return None
+    return _literal_of
+
+
+def _lift_literal(I, r):
+    if isinstance(r, bool):
+        return vbool(r)
+    if isinstance(r, int):
+        return vint(r)
+    if isinstance(r, str):
+        return vstr(r)
+    if r is None:
+        return NONE
+    if isinstance(r, tuple):
+        return vtup([_lift_literal(I, x_) for x_ in r])
+    if isinstance(r, list):
+        return I.st.new_list(sq_of(I, [_lift_literal(I, x_) for x_ in r]))
+    raise OutsideSubset("literal result")
+
+
 def _str_method(I, s, name, args, kwargs):
     x = V.s(s)
+    if name in _LITERAL_STR_METHODS and not kwargs and name != "join":
+        # a literal string with literal arguments: the interpreter's own answer (exact)
+        recv = _literal_of(I, s)
+        lits = [_literal_of(I, a_) for a_ in args]
+        if isinstance(recv, str) and all(l_ is not _literal_of for l_ in lits):
+            try:
+                return _lift_literal(I, getattr(recv, name)(*lits))
+            except OutsideSubset:
+                pass
+            except Exception:      # noqa - the real method raised (TypeError ...): fall through to the symbolic model
+                pass
     if name == "startswith":
         a = I.lift(args[0])
         if I.tag(a) == "tup":
@@ -1868,6 +1914,11 @@ def call_ext(I, dotted, args, kwargs, star, env):
     if name == "builtins.any" or name == "builtins.all":
         want_all = name.endswith("all")
         src = I.lower(args[0])
+        if isinstance(src, HView) and src.kind in ("values", "keys", "items"):
+            items_ = iterate_concrete(I, src)
+            if items_ is not None:
+                conds_ = [I.truthy(x_) for x_ in items_]
+                return vbool((z3.And(conds_) if want_all else z3.Or(conds_)) if conds_ else z3.BoolVal(want_all))
         if isinstance(src, HView):
             return vbool(quantify_view(I, src, want_all))
         items = iterate_concrete(I, src)
